@@ -229,10 +229,6 @@ theorem feed_invariant (hs : Nat) (hhs : 0 < hs) (s : TrailerState) (P data : By
 
 /-! ### one entry: what the writer emits parses back to what it meant -/
 
-/-- zlib as the theorems see it. -/
-def ZlibOk (deflate : Bytes → Bytes) (inflate : Bytes → Option (Bytes × Bytes)) : Prop :=
-  ∀ x rest, inflate (deflate x ++ rest) = some (x, rest)
-
 theorem entryBytes_ne_nil (deflate : Bytes → Bytes) (off : Nat) (ents : List WEntry) (r : Rec) :
     entryBytes deflate off ents r ≠ [] := by
   unfold entryBytes
